@@ -226,9 +226,14 @@ theorem modelDump_ok (s : State) (h : Inv s) (k : Nat) : DumpOk (abs s) k (model
     refine ⟨IMap.keys s.edges, List.range s.edges.length, ?_, ?_, ?_, ?_⟩
     · simp only [modelDumpS, allEdges_length]
       rw [map_getElem?_range]; exact allSomes_map_some _
-    · have : (allEdges s).map (fun e => IMap.indexOf? s.edges (e.1, e.2.1)) =
+    · have : (allEdges s).map (fun e => IMap.indexOf? s.edges (edgeKey s.directed e.1 e.2.1)) =
           (IMap.keys s.edges).map (fun x => IMap.indexOf? s.edges x) := by
-        simp [allEdges, IMap.keys, List.map_map, Function.comp_def]
+        simp only [allEdges, IMap.keys, List.map_map]
+        apply List.map_congr_left
+        intro e he
+        have hg := get?_of_mem _ h.edgesNodup _ _ (show ((e.1.1, e.1.2), e.2) ∈ s.edges from he)
+        simp only [Function.comp_def]
+        rw [canon_key s h e.1.1 e.1.2 (by rw [hg]; rfl)]
       simp only [modelDumpS]
       rw [this, map_indexOf?_keys _ h.edgesNodup]; exact allSomes_map_some _
     · rw [withWeights_keys s h]; exact allEdges_ok s h
